@@ -264,6 +264,10 @@ pub enum DecompressBlockError {
     SequencesHeaderParseError(SequencesHeaderParseError),
     DecodeSequenceError(DecodeSequenceError),
     ExecuteSequencesError(ExecuteSequencesError),
+    LiteralsTooLarge {
+        regenerated_size: u32,
+        max: u32,
+    },
 }
 
 #[cfg(feature = "std")]
@@ -300,6 +304,15 @@ impl core::fmt::Display for DecompressBlockError {
             DecompressBlockError::SequencesHeaderParseError(e) => write!(f, "{e:?}"),
             DecompressBlockError::DecodeSequenceError(e) => write!(f, "{e:?}"),
             DecompressBlockError::ExecuteSequencesError(e) => write!(f, "{e:?}"),
+            DecompressBlockError::LiteralsTooLarge {
+                regenerated_size,
+                max,
+            } => {
+                write!(
+                    f,
+                    "Literals section regenerates {regenerated_size} bytes, a block may regenerate at most {max} bytes",
+                )
+            }
         }
     }
 }
@@ -684,6 +697,7 @@ pub enum ExecuteSequencesError {
     DecodebufferError(DecodeBufferError),
     NotEnoughBytesForSequence { wanted: usize, have: usize },
     ZeroOffset,
+    BlockTooLarge { size: usize, max: usize },
 }
 
 impl core::fmt::Display for ExecuteSequencesError {
@@ -700,6 +714,12 @@ impl core::fmt::Display for ExecuteSequencesError {
             }
             ExecuteSequencesError::ZeroOffset => {
                 write!(f, "Illegal offset: 0 found")
+            }
+            ExecuteSequencesError::BlockTooLarge { size, max } => {
+                write!(
+                    f,
+                    "Sequences regenerate at least {size} bytes, a block may regenerate at most {max} bytes"
+                )
             }
         }
     }
